@@ -211,6 +211,17 @@ def check_property(pid, a, seed, timeout_ms, t0):
             env["PYTHONPATH"] = VERIF + os.pathsep + REPO
             env["PYTHONDONTWRITEBYTECODE"] = "1"
             env["MINGUS_VERIF"] = "1"
+            undecided_fns = set(fq.split("#")[0] for fq, rs in fun_results.items() if any(r["undecided"] for r in rs))
+            if undecided_fns:
+                # a function the generator could not decide falls back on its run-time contract: deeper battery
+                extra = [fq for fq in fqs if fq in undecided_fns]
+                fqs2 = [fq for fq in fqs if fq not in undecided_fns]
+                chunks = [fqs2[i::max(1, min(a.jobs, len(fqs2)))] for i in range(max(1, min(a.jobs, len(fqs2))))] if fqs2 else []
+                for j, fq in enumerate(extra):
+                    out = os.path.join(tmpd, "u%d.json" % j)
+                    p = subprocess.Popen([PY_REAL, "-m", "bounded.run", "battery", out, "thorough", str(seed), fq],
+                                         cwd=VERIF, env=env, stdout=subprocess.PIPE, stderr=subprocess.PIPE, text=True)
+                    procs.append((p, out))
             for i, ch in enumerate(chunks):
                 if not ch:
                     continue
@@ -280,7 +291,7 @@ def check_property(pid, a, seed, timeout_ms, t0):
             all_vcs.append(x)
             n += 1
             d += x["verdict"] == "proved"
-        if reach == 0:
+        if reach == 0 and not any(r["undecided"] for r in rs):
             vacuous.append(fq)
         funcs_ev.append({"function": fq, "source_sha1": rs[0]["source_sha1"], "obligations": n, "discharged": d,
                          "paths": sum(r["paths"] for r in rs), "reachable_exits": reach,
